@@ -7,10 +7,10 @@ import vlib, inputfam
 E2E_SIZES = [1, 2, 10, 1000]
 
 
-def one(maxlen, backend, transport="plain", retry_invalid=False):
+def one(maxlen, backend, transport="plain", retry_invalid=False, origin416=False):
     d = vlib.scratch("rangee2e-")
     try:
-        consts = dict(MaxLen=maxlen, Sizes=set(E2E_SIZES), Toks=inputfam.RANGE_TOKS, UnitPrefixes=inputfam.RANGE_PREFIXES, IfRangeOn=True,
+        consts = dict(MaxLen=maxlen, Sizes=set(E2E_SIZES), Toks=inputfam.RANGE_TOKS, UnitPrefixes=inputfam.RANGE_PREFIXES, IfRangeOn=True, FullOK=origin416,
                       CaseFile=os.path.join(d, "cases.ndjson"), ResultFile=os.path.join(d, "res.ndjson"))
         cfg = vlib.cfg_text(consts, spec="Spec")
         r = vlib.tlc_check("RangeGen", cfg, timeout=600, workers=1)
@@ -20,7 +20,7 @@ def one(maxlen, backend, transport="plain", retry_invalid=False):
         ncases = sum(1 for _ in open(cases))
         binp = vlib.go_build("relaydrv")
         rc, out, err, _ = vlib.run_driver(binp, ["-mode", "range", "-backend", backend, "-in", cases, "-out", os.path.join(d, "res.ndjson"),
-                                                 "-sizes", ",".join(map(str, E2E_SIZES)), "-transport", transport] + (["-retry-invalid-range"] if retry_invalid else []), cwd=d, timeout=2400)
+                                                 "-sizes", ",".join(map(str, E2E_SIZES)), "-transport", transport] + (["-retry-invalid-range"] if retry_invalid else []) + (["-origin416"] if origin416 else []), cwd=d, timeout=2400)
         if rc != 0 or "relaydrv done" not in out:
             raise vlib.Inconclusive("relaydrv range failed (rc=%s): %s" % (rc, err[-1500:]))
         r2 = vlib.tlc_check("RangeJudge", cfg, timeout=1800, workers=1, heap="24g")
@@ -33,7 +33,7 @@ def one(maxlen, backend, transport="plain", retry_invalid=False):
             outcomes[x["out"][0]] = outcomes.get(x["out"][0], 0) + 1
             if i % 7919 == 0 and len(sample) < 8:
                 sample.append({"value": x["v"], "size": x["size"], "out": x["out"]})
-        return dict(name="range_end_to_end_%s_%s%s" % (backend, transport, "_retry_invalid" if retry_invalid else ""), evaluations=int(m.group(1)), distinct=ncases, bad=int(m.group(2)),
+        return dict(name="range_end_to_end_%s_%s%s" % (backend, transport, ("_retry_invalid" if retry_invalid else "") + ("_origin416" if origin416 else "")), evaluations=int(m.group(1)), distinct=ncases, bad=int(m.group(2)),
                     detail=" ".join(m.group(3).split())[:4000], sample=sample, outcomes=outcomes)
     finally:
         shutil.rmtree(d, ignore_errors=True)
@@ -41,5 +41,6 @@ def one(maxlen, backend, transport="plain", retry_invalid=False):
 
 def run(tier, seed):
     if tier == "quick":
-        return [one(3, "memory"), one(2, "memory", "tunnel"), one(2, "memory", "plain", True)]
-    return [one(4, "memory"), one(3, "file"), one(3, "memory", "tunnel"), one(3, "memory", "plain", True), one(2, "file", "tunnel", True)]
+        return [one(3, "memory"), one(2, "memory", "tunnel"), one(2, "memory", "plain", True), one(3, "memory", "plain", False, True)]
+    return [one(4, "memory"), one(3, "file"), one(3, "memory", "tunnel"), one(3, "memory", "plain", True), one(2, "file", "tunnel", True),
+            one(4, "memory", "plain", False, True), one(3, "file", "tunnel", False, True)]
